@@ -38,7 +38,10 @@ pub struct RunSpec {
 pub type HarnessFn = fn(&RunSpec) -> RunOutput;
 
 /// Runs `f` on a fresh OS thread whose `RandomState` keys derive from `hash_seed`.
-pub fn on_fresh_thread<R: Send + 'static>(hash_seed: u64, f: impl FnOnce() -> R + Send + 'static) -> R {
+pub fn on_fresh_thread<R: Send + 'static>(
+    hash_seed: u64,
+    f: impl FnOnce() -> R + Send + 'static,
+) -> Result<R, String> {
     std::thread::Builder::new()
         .stack_size(8 << 20)
         .spawn(move || {
@@ -47,12 +50,30 @@ pub fn on_fresh_thread<R: Send + 'static>(hash_seed: u64, f: impl FnOnce() -> R 
         })
         .expect("spawn run thread")
         .join()
-        .expect("run thread panicked (harness error)")
+        .map_err(|e| {
+            let msg = e
+                .downcast_ref::<String>()
+                .cloned()
+                .or_else(|| e.downcast_ref::<&str>().map(|s| s.to_string()))
+                .unwrap_or_else(|| "<panic>".into());
+            format!("simulator panicked outside a task poll: {msg}")
+        })
 }
 
 pub fn execute(harness: HarnessFn, spec: RunSpec) -> RunOutput {
     let hash_seed = spec.seed ^ 0x6861_7368;
-    on_fresh_thread(hash_seed, move || harness(&spec))
+    let spec2 = spec.clone();
+    match on_fresh_thread(hash_seed, move || harness(&spec2)) {
+        Ok(out) => out,
+        Err(e) => RunOutput {
+            violations: vec![],
+            harness_error: Some(e),
+            stats: RunStats::default(),
+            choices: vec![],
+            trace: vec![],
+            plan: spec.plan.unwrap_or(serde_json::Value::Null),
+        },
+    }
 }
 
 #[derive(Debug, Clone)]
